@@ -36,6 +36,9 @@ pub use self::semaphore::{
     GenericSharedSemaphoreReleaser,
 };
 
+#[cfg(all(feature = "alloc", futures_intrusive_verif))]
+pub use self::semaphore::VerifSharedSemaphore;
+
 #[cfg(feature = "std")]
 pub use self::semaphore::{
     Semaphore, SemaphoreAcquireFuture, SemaphoreReleaser, SharedSemaphore,
